@@ -187,7 +187,7 @@ def envs(ctx, shard, nshards):
     if r.out.strip() != b"2012-03-01T00:00:00":
         sub.inconclusive.append("fake clock not effective: %r %r" % (r.out, r.err[:200]))
         return sub
-    for it in range(500 if not ctx.thorough else 5000):
+    for it in range(1200 if not ctx.thorough else 6000):
         tool, args, stdin, exp, tag = gen_invocation(rnd, B)
         base = run(ctx, tool, args, stdin, BASE_ENV)
         sub.evaluations += 1
